@@ -5,7 +5,8 @@ Line protocol for C10.
 
   st  <tail> rw <0|1> me <hex> ev <n> <event>*n ch <k> <size>*k rd <m> <size>*m
         event:  w <len> <seed> | cw | cl | f <tidhex> <ty> <len> <seed>
-      obs:  wr <k> (ok:<n>|closed|err:<n>)*k rd <j> (d:<hex>|eof|err:<kind>|fuel)*j rb <0|1> wb <0|1>
+      obs:  wr <k> (ok:<n>|closed|err:<n>)*k rd <j> (x:<n>|d:<hex>|eof|err:<kind>|fuel)*j rb <0|1> wb <0|1>
+            (x:<n> = the next n bytes of the case's reference stream, see `refStream`)
   dec <tail> st <hex> ch <k> <size>*k
       obs:  fr <m> (<idhex> <ty> <datahex>)*m stop <kind> left <n> alloc <a>
   rt  <tail> fr <n> (<idhex> <ty> <len> <seed>)*n ch <k> <size>*k
@@ -114,9 +115,28 @@ def wresStr : WRes → String
 def rresStr : RRes → String
   | .data d => "d:" ++ hexOfBytes d | .eof => "eof" | .err e => "err:" ++ kindStr e | .fuel => "fuel"
 
-def stObsStr (o : StObs) : String :=
+/-- Reference stream of a case: the payloads of all `w` events and of all injected data frames carrying
+our id string, in order (a function of the case text only — no close/accept logic).  Read results are
+written relative to it: `x:<n>` = "the next `n` bytes of the reference stream at the cursor", anything
+else literally (`d:<hex>`); the cursor advances by the size of every data result.  The encoding is
+lossless (`decReads ∘ encReads = id`); it only keeps the observation lines of 64 KiB writes short. -/
+def refStream (me : Bytes) : List Ev → Bytes
+  | [] => []
+  | .write p :: evs => p ++ refStream me evs
+  | .inject tid ty d :: evs =>
+    if tid == me && ty == Gen.crossnode.FrameTypeData then d ++ refStream me evs else refStream me evs
+  | _ :: evs => refStream me evs
+
+def encReads : Bytes → List RRes → List String
+  | _, [] => []
+  | xs, .data d :: rs =>
+    (if !d.isEmpty && d.isPrefixOf xs then s!"x:{d.length}" else "d:" ++ hexOfBytes d) ::
+      encReads (xs.drop d.length) rs
+  | xs, r :: rs => rresStr r :: encReads xs rs
+
+def stObsStr (me : Bytes) (evs : List Ev) (o : StObs) : String :=
   let ws := o.writes.foldl (fun acc w => acc ++ " " ++ wresStr w) ""
-  let rs := String.intercalate " " (o.reads.map rresStr)
+  let rs := String.intercalate " " (encReads (refStream me evs) o.reads)
   s!"wr {o.writes.length}{ws} rd {o.reads.length}" ++ (if o.reads.isEmpty then "" else " " ++ rs) ++
     s!" rb {if o.rbroken then 1 else 0} wb {if o.wbroken then 1 else 0}"
 
@@ -135,7 +155,21 @@ def parseRRes (s : String) : Option RRes :=
   else if s.startsWith "err:" then (kindOf (afterColon s)).map .err
   else none
 
-def parseStObs : List String → Option StObs
+def decReads : Bytes → List String → Option (List RRes)
+  | _, [] => some []
+  | xs, t :: ts =>
+    if t.startsWith "x:" then do
+      let n ← (afterColon t).toNat?
+      if n = 0 || n > xs.length then none
+      else
+        let rest ← decReads (xs.drop n) ts
+        pure (.data (xs.take n) :: rest)
+    else do
+      let r ← parseRRes t
+      let rest ← decReads (match r with | .data d => xs.drop d.length | _ => xs) ts
+      pure (r :: rest)
+
+def parseStObs (ref : Bytes) : List String → Option StObs
   | "wr" :: k :: ts => do
     let k ← k.toNat?
     let (ws, ts) ← takeN k ts
@@ -144,7 +178,7 @@ def parseStObs : List String → Option StObs
     | "rd" :: j :: ts => do
       let j ← j.toNat?
       let (rs, ts) ← takeN j ts
-      let rs ← rs.mapM parseRRes
+      let rs ← decReads ref rs
       match ts with
       | ["rb", rb, "wb", wb] =>
         if (rb == "0" || rb == "1") && (wb == "0" || wb == "1") then pure ⟨ws, rs, rb == "1", wb == "1"⟩ else none
@@ -171,8 +205,14 @@ def parseDecObs : List String → Option DecObs
 
 /-! ### cases -/
 
+/-- The wire is cut by the case's chunk sizes, the remainder into 4 KiB chunks (any chunking gives the
+same observation, `C10_stream_main`; one huge trailing chunk only makes the model's `readFull` walk
+its whole length again for every frame). -/
+def cutWire (sizes : List Nat) (b : Bytes) : List Bytes :=
+  chunkBy (sizes ++ List.replicate (b.length / 4096 + 1) 4096) b
+
 def modelSt (c : StCase) : StObs :=
-  runStream c.me c.evs (chunkBy c.chunks) c.tail c.rw c.reads
+  runStream c.me c.evs (cutWire c.chunks) c.tail c.rw c.reads
 
 structure DecCase where
   tail : Tail
@@ -253,7 +293,7 @@ def runModel (ts : List String) : String :=
     | none => "bad-case"
   | "st" :: rest =>
     match parseSt rest with
-    | some c => stObsStr (modelSt c)
+    | some c => stObsStr c.me c.evs (modelSt c)
     | none => "bad-case"
   | "dec" :: rest =>
     match parseDec rest with
@@ -274,10 +314,12 @@ def runHolds (caseToks obsToks : List String) : String :=
     | some _, none => "false"
     | none, _ => "bad-case"
   | "st" :: rest =>
-    match parseSt rest, parseStObs obsToks with
-    | some c, some o => boolStr (holdsStream c.me c.evs c.tail c.reads o)
-    | some _, none => "false"
-    | none, _ => "bad-case"
+    match parseSt rest with
+    | some c =>
+      match parseStObs (refStream c.me c.evs) obsToks with
+      | some o => boolStr (holdsStream c.me c.evs c.tail c.reads o)
+      | none => "false"
+    | none => "bad-case"
   | "dec" :: rest =>
     match parseDec rest, parseDecObs obsToks with
     | some c, some o => boolStr (holdsDec c.stream c.tail o)
